@@ -199,6 +199,7 @@ PROPS = {
                lambda c: sched.sched_handover(c, (sched.FF,)),
                lambda c: sched.sched_progress(c, (sched.FF,)),
                idxdom.idx_domain, sensor.sm_gate, layout.sd_transform, layout.ff_comp,
+               layout.result_form, lambda c: layout.res_collect(c, (sched.FF,)),
                lambda c: interp.interp_rules(c, ('feedforward',))],
         decided=['every measurement sample is fused exactly once (epoch list de-duplicated, cursor pairing, no epoch overtaken: the C10 rules on the feedforward loop)',
                  'the epoch state is the interpolation between the bracketing rows with the elapsed fraction; propagation matrices at the mid-point state',
@@ -218,7 +219,7 @@ PROPS = {
                interp.interp_rules, interp.fb_epoch, layout.corr_pair,
                lambda c: sched.sched_epochs(c, (sched.FB, sched.FF)),
                lambda c: sched.sched_sibling(c, ('feedback', 'feedforward')),
-               integrator.last_row, smmodel.sm_model],
+               integrator.last_row, smmodel.sm_model, layout.result_form, layout.res_collect],
         decided=['both filters fuse the same set of measurement samples: same epoch-list stages (merge, de-duplication, clip to [start, end], sentinel) in both loops',
                  'both filters reset both sensor models before any use (re-run reproducibility)',
                  'feedback effects (set_pva, update_estimates, correct) only inside the '
